@@ -1116,6 +1116,18 @@ static void run_line(char *line)
 		out("copy ok allocs=%ld fds=%+d %s", used, count_fds() - fds, pb);
 		return;
 	}
+	if (!IS_UNIT(E.kind) && (!strcmp(argv[0], "recopy") || (!strcmp(argv[0], "copydrop") && argc >= 2 && target(argv[1]) >= 0))) {
+		/* `recopy`: the copy is replaced by a copy of itself (copy of a copy; the first copy is released);
+		   `copydrop x`: one more copy of x is made while the others are alive, and released at once (two live copies) */
+		int re = !strcmp(argv[0], "recopy"), src = re ? 1 : target(argv[1]); void *tmp;
+		if (!E.obj[src]) { out("no-object"); return; }
+		tmp = sqfs_copy(E.obj[src]);
+		if (!tmp) { out("%s NULL", argv[0]); return; }
+		if (re) { sqfs_drop(E.obj[1]); E.obj[1] = tmp; } else sqfs_drop(tmp);
+		canary_stamp();
+		out("%s ok file=%zu cmp=%zu", argv[0], rc_of(E.file), rc_of(E.cmp));
+		return;
+	}
 	if (!strcmp(argv[0], "drop") && argc >= 2 && (t = target(argv[1])) >= 0) {
 		if (!E.obj[t]) { out("no-object"); return; }
 		if (IS_UNIT(E.kind)) { unit_release(t); canary_stamp(); out("drop"); return; }
